@@ -202,6 +202,7 @@ def _gen_world(r):
     # whatever the converter does with it, the original handed in must stay recoverable
     w["time_4dec"] = r.random() < 0.25      # the duration written with four decimals, as the acquisition software does (the exact count is then only in the size)
     w["prelude_conv"] = r.random() < 0.12   # an earlier conversion in the same process: same probe (serial), another site-to-shank layout
+    w["flip_sites"] = r.random() < 0.2            # a channel map numbered from the top of the probe downwards
     w["underscore_names"] = r.random() < 0.08     # m1_g0_t0_imec0_ap.bin: the band token without the dots
     w["uuid_names"] = r.random() < 0.12     # *.imec0.ap.<uuid>.bin, as files are named on the archive
     w["extremes"] = r.random() < 0.3      # corners of int16 and runs of zeros in the content
@@ -274,7 +275,7 @@ class World:
         elif w.get("meta_claim") == "more":
             claimed = w["ns"] + max(1, w["ns"] // 4)
         world.write_recording(self.pdir, STEM, fixture, self.O, shank_of=w["shank_of"], claimed_ns=claimed,
-                              time_decimals=(4 if w.get("time_4dec") else None))
+                              time_decimals=(4 if w.get("time_4dec") else None), flip_sites=bool(w.get("flip_sites")))
         self.U = UUID if (w.get("uuid_names") and kind != "split") else ""
         self.underscore = bool(w.get("underscore_names")) and kind != "split" and not self.U     # band token written "_ap" instead of ".ap."
         self.bin = self.pdir / self.fn("ap", ".bin")
@@ -842,7 +843,7 @@ def shrink_candidates(plan):
                     c["steps"][i]["fault"] = {"auto": True, "rseed": 7}
                 yield c
     w = plan["world"]
-    for key, val in (("underscore_names", False), ("prelude_conv", False), ("uuid_names", False), ("stale_cbin", False), ("meta_claim", None), ("ns", 1000), ("nap", 4), ("form", "bin")):
+    for key, val in (("flip_sites", False), ("underscore_names", False), ("prelude_conv", False), ("uuid_names", False), ("stale_cbin", False), ("meta_claim", None), ("ns", 1000), ("nap", 4), ("form", "bin")):
         if w.get(key) != val:
             c = dict(plan)
             c["world"] = dict(w)
